@@ -37,6 +37,8 @@ def run(ctx):
     ctx.attempt(r3, ctx, F)
     ctx.attempt(r4, ctx, F)
     ctx.attempt(r5, ctx, F)
+    ctx.rule('C09.R6', 'every rename under the recursive sync takes its source from a staging name: the live destination is never renamed away', floor=2)
+    ctx.attempt(r6_rename_sources, ctx, F)
 
 
 def tmp_path_rule(ctx, F):
@@ -226,6 +228,73 @@ def r3(ctx, F):
                       'truncated staging file is published', where)
 
 
+def r6_rename_sources(ctx, F):
+    """Between the moment a live name is renamed away and the rename that publishes the new content the path holds NOTHING: a
+    kill there leaves neither the old nor the new bytes.  So under the recursive sync every rename takes its SOURCE from a
+    staging name (directly, or through a parameter that is a staging name at every call site); a rename whose source is the
+    delivery's destination path is reported, other sources are not decided."""
+    cg = callgraph_of(F)
+    graph = cg.reach([RUN_REC])
+    n = 0
+    for b, bb, c in cg.call_sites(lambda c: c.endswith('fs::rename'), within=graph):
+        fl = flow_of(b)
+        if bb not in fl.cfg.reachable():
+            continue
+        t = b.blocks[bb]['term']
+        top = b.path.split('::{')[0]
+        n += 1
+        src_o = [o for o in fl.origins(t['args'][0]) if o.kind != 'comb']
+        dst_o = [o for o in fl.origins(t['args'][1]) if o.kind != 'comb']
+        stg = lambda op: is_staging(fl, op) or is_staging_name(F, fl, op)
+        if stg(t['args'][0]):
+            ctx.ok('C09.R6', '%s:rename-from-staging' % top.split('::')[-1], 'the renamed file is the staging file', term_loc(b, bb))
+            continue
+        key = lambda os_: {(o.kind, str(o.key), o.bb, tuple(o.path)) for o in os_}
+        # the source is a parameter / capture: look at what the callers hand over for source and destination
+        if src_o and all(o.kind in ('param', 'upvar') for o in src_o):
+            tb = F.body(top)
+            def slot(o):
+                name = b.upvars.get(int(o.key)) if o.kind == 'upvar' and o.key is not None else b.local_name(o.key)
+                return next((i for i in range(1, (tb.argc if tb else 0) + 1) if tb.local_name(i) == name), None)
+            s_slots = {slot(o) for o in src_o}
+            sites = cg.call_sites(lambda c2: c2 == top, within=graph)
+            if tb is None or None in s_slots or len(s_slots) != 1 or not sites:
+                ctx.undecided('C09.R6', '%s renames a path it was handed: what its callers pass is not read' % top.split('::')[-1])
+                continue
+            si = list(s_slots)[0]
+            verdicts = []
+            for sb, sbb, _ in sites:
+                sfl = flow_of(sb)
+                a = sb.blocks[sbb]['term']['args'][si - 1]
+                if is_staging(sfl, a) or is_staging_name(F, sfl, a):
+                    verdicts.append(True)
+                else:
+                    # the caller's own delivery destination (the path its publishing rename lands on) handed over as the SOURCE
+                    pubs = [rt_ for rb_, rt_ in sfl.calls(lambda c2: c2.endswith('fs::rename'))]
+                    ak = key([o for o in sfl.origins(a) if o.kind != 'comb'])
+                    live = any(ak and ak == key([o for o in sfl.origins(rt_['args'][1]) if o.kind != 'comb']) for rt_ in pubs)
+                    verdicts.append(False if live else None)
+            if all(v is True for v in verdicts):
+                ctx.ok('C09.R6', '%s:rename-from-staging' % top.split('::')[-1], 'the renamed file is a staging file at every call site', term_loc(b, bb))
+            elif any(v is False for v in verdicts):
+                ctx.bad('C09.R6', '%s:renames-the-live-file-away' % top.split('::')[-1],
+                        '%s renames away the very path its caller later publishes onto (the live destination becomes the staging file): until the publishing rename the path holds '
+                        'neither the old nor the new bytes - a kill in between loses the file' % top, term_loc(b, bb))
+            else:
+                ctx.undecided('C09.R6', '%s renames a path that is not a staging name at some call site: whether it is a live destination is not decided' % top.split('::')[-1])
+            continue
+        if src_o and dst_o and key(src_o) != key(dst_o):
+            # same body: the source of this rename is the destination of another rename (the publishing one) in this function
+            live = any(rb_ != bb and key(src_o) == key([o for o in fl.origins(rt_['args'][1]) if o.kind != 'comb']) for rb_, rt_ in fl.calls(lambda c2: c2.endswith('fs::rename')))
+            if live:
+                ctx.bad('C09.R6', '%s:renames-the-live-file-away' % top.split('::')[-1],
+                        '%s renames away the path it later publishes onto: until the publishing rename the path holds neither the old nor the new bytes' % top, term_loc(b, bb))
+                continue
+        ctx.undecided('C09.R6', '%s renames a file whose name is not a staging name: whether it is a live destination is not decided' % top.split('::')[-1])
+    if n < 2:
+        ctx.missing('C09.R6', 'renames under run_sync_recursive (found %d)' % n)
+
+
 def r4(ctx, F):
     cg = callgraph_of(F)
     graph = cg.reach([RUN_REC])
@@ -235,21 +304,6 @@ def r4(ctx, F):
         t = b.blocks[bb]['term']
         pos = tables.CONTENT_CREATORS[c]
         top = b.path.split('::{')[0]
-        if c.endswith('OpenOptions::open'):
-            # set_local_mtime opens the delivered file to set its mtime: the handle must flow only into set_modified / set_times
-            l = t['dst']['l']
-            uses = [callee(b.blocks[ubb]['term']) for (ubb, uidx, role) in fl._transitive_uses(l) if uidx == 'term' and b.blocks[ubb]['term']['k'] == 'call']
-            # (the Result is unwrapped by `?` first)
-            writes = [bb2 for bb2, t2 in fl.calls(lambda c2: c2.startswith('std::io::Write::') or c2.endswith('::set_len') or 'AsyncWriteExt' in c2)]
-            n += 1
-            ctx.check(not writes, 'C09.R4', '%s:open-for-mtime' % top.split('::')[-1], 'the opened handle is used for set_modified only',
-                      '%s opens a destination file for writing and writes to it in place' % top, term_loc(b, bb))
-            continue
-        po = fl.origins(t['args'][pos])
-        n += 1
-        if all(o.kind == 'call' and o.key == STAGING_FN for o in po) and po:
-            ctx.ok('C09.R4', '%s:%s(staging)' % (top.split('::')[-1], c.split('::')[-1]), 'content lands at a staging name', term_loc(b, bb))
-            continue
         # a parameter: every call site (in the graph) passes a staging path - directly, or as a parameter of its own (a typed-error
         # wrapper around the worker, a phase function) whose call sites do
         def staged_at_callers(body_, os_, depth=0):
@@ -272,6 +326,26 @@ def r4(ctx, F):
                     if not (is_staging(sfl, arg) or staged_at_callers(sb, sfl.origins(arg), depth + 1)):
                         return False
             return True
+        if c.endswith('OpenOptions::open'):
+            # set_local_mtime opens the delivered file to set its mtime: the handle must flow only into set_modified / set_times
+            l = t['dst']['l']
+            uses = [callee(b.blocks[ubb]['term']) for (ubb, uidx, role) in fl._transitive_uses(l) if uidx == 'term' and b.blocks[ubb]['term']['k'] == 'call']
+            # (the Result is unwrapped by `?` first)
+            writes = [bb2 for bb2, t2 in fl.calls(lambda c2: c2.startswith('std::io::Write::') or c2.endswith('::set_len') or 'AsyncWriteExt' in c2)]
+            n += 1
+            po_ = fl.origins(t['args'][pos]) if pos < len(t['args']) else set()
+            if writes and po_ and ((all(o.kind == 'call' and o.key == STAGING_FN for o in po_)) or staged_at_callers(b, po_)):
+                # opened for writing, but at the staging name (append to / reopen the staged file): nothing live is written in place
+                ctx.ok('C09.R4', '%s:open(staging)' % top.split('::')[-1], 'the file opened for writing is the staging file', term_loc(b, bb))
+                continue
+            ctx.check(not writes, 'C09.R4', '%s:open-for-mtime' % top.split('::')[-1], 'the opened handle is used for set_modified only',
+                      '%s opens a destination file for writing and writes to it in place' % top, term_loc(b, bb))
+            continue
+        po = fl.origins(t['args'][pos])
+        n += 1
+        if all(o.kind == 'call' and o.key == STAGING_FN for o in po) and po:
+            ctx.ok('C09.R4', '%s:%s(staging)' % (top.split('::')[-1], c.split('::')[-1]), 'content lands at a staging name', term_loc(b, bb))
+            continue
         ok = staged_at_callers(b, po)
         if not ok:
             # `self.staged.as_deref().unwrap_or(&self.dst)`: the target is the staging name kept in an Option field, or the final
